@@ -271,7 +271,10 @@ func (hm *Manager) GetHooksInOrder(bindingType htypes.BindingType) ([]string, er
 			}
 		}
 
-		sort.Slice(hooks, func(i, j int) bool {
+		// Stable sort: hooks are registered in alphabetical order of their paths and hooks
+		// with equal onStartup values must keep that order (sort.Slice reorders ties
+		// for more than 12 hooks).
+		sort.SliceStable(hooks, func(i, j int) bool {
 			return hooks[i].Config.OnStartup.Order < hooks[j].Config.OnStartup.Order
 		})
 	}
